@@ -416,8 +416,31 @@ func cycleAvoiding(scc map[*ssa.BasicBlock]bool, removed []*ssa.BasicBlock) bool
 
 // errorDiscipline checks the error result of an eval-reaching call; returns "" when fine.
 func errorDiscipline(call *ssa.Call, ei *evalInfo) string {
-	sc := call.Call.StaticCallee()
-	nres := sc.Signature.Results().Len()
+	return errorDisciplineGen(call, func(c2 *ssa.Call) bool {
+		sc2 := c2.Call.StaticCallee()
+		return sc2 != nil && ei.reach[sc2]
+	})
+}
+
+// callName names the callee of a call for messages.
+func callName(call *ssa.Call) string {
+	if sc := call.Call.StaticCallee(); sc != nil {
+		return sc.Name()
+	}
+	if call.Call.IsInvoke() {
+		return call.Call.Method.Name()
+	}
+	return call.Call.Value.Name()
+}
+
+type namedCallee struct{ name string }
+
+func (n namedCallee) Name() string { return n.name }
+
+// errorDisciplineGen: like errorDiscipline with a caller-supplied notion of "significant call".
+func errorDisciplineGen(call *ssa.Call, significant func(*ssa.Call) bool) string {
+	sc := namedCallee{callName(call)}
+	nres := call.Call.Signature().Results().Len()
 	var errVal ssa.Value
 	if nres == 1 {
 		errVal = call
@@ -451,8 +474,8 @@ func errorDiscipline(call *ssa.Call, ei *evalInfo) string {
 		for i := fromInstr; i < len(b.Instrs); i++ {
 			switch x := b.Instrs[i].(type) {
 			case *ssa.Call:
-				if c2 := x.Call.StaticCallee(); c2 != nil && ei.reach[c2] && x != call {
-					problems = append(problems, fmt.Sprintf("%s is called while the error of %s may still be pending", c2.Name(), sc.Name()))
+				if x != call && significant(x) {
+					problems = append(problems, fmt.Sprintf("%s is called while the error of %s may still be pending", callName(x), sc.Name()))
 					return
 				}
 			case *ssa.Return:
